@@ -231,7 +231,12 @@ def delegateTo : Prog :=
 def precompileDelegate : Prog :=
   [.check "CheckExocoreGatewayAddr", .check "GetDelegationParamsFromInputs"] ++ delegateTo
 
-/-- x/delegation/keeper/delegation.go: UndelegateFrom (+ share.go: RemoveShare) -/
+/-- x/delegation/keeper/delegation.go: UndelegateFrom (+ share.go: RemoveShare), followed by the one registered
+    delegation hook, x/dogfood/keeper/impl_delegation_hooks.go: AfterUndelegationStarted — reads of x/operator and
+    x/dogfood (early `return nil`s), then AppendUndelegationToMature and SetUndelegationMaturityEpoch (no error
+    result), then the tail call IncrementUndelegationHoldCount (`prev == math.MaxUint64` before its own Set).
+    SetUndelegationRecords tests the completion height of the record and then overwrites: the check stands after
+    RemoveShare's writes. -/
 def undelegateFrom : Prog :=
   [.check "OpAmount.IsPositive", .check "IsOperator", .check "ValidateUndelegationAmount",
    -- RemoveShare / RemoveShareFromOperator
@@ -240,7 +245,9 @@ def undelegateFrom : Prog :=
   updateStakerAssetState ++
   [.check "UpdateDelegationState", .write "Set(delegationState)", .check "DeleteStakerForOperator",
    .write "Set(stakersByOperator)", .check "SetUndelegationRecords", .write "Set(undelegationRecord)",
-   .call "Hooks.AfterUndelegationStarted"]
+   -- Hooks().AfterUndelegationStarted
+   .write "AppendUndelegationToMature|SetUndelegationMaturityEpoch", .check "IncrementUndelegationHoldCount",
+   .write "Set(undelegationOnHold)"]
 
 /-- precompiles/delegation/tx.go: Undelegate -/
 def precompileUndelegate : Prog :=
